@@ -393,3 +393,37 @@ def rule_generated_default_and_stub(ctx: Ctx, out: Collector) -> None:
                 f'`callable(getattr(node, "process", None))`, which the stub satisfies, and its (*args, **kwargs) signature leaves the '
                 f'annotation check nothing to test: a node with a missing or misspelled process is accepted at every position and by '
                 f'build_node, the run ends in NotImplementedError')
+
+
+# ---------------------------------------------------------------------------------------------
+# EX-11
+# ---------------------------------------------------------------------------------------------
+def rule_pool_fetch_outside_retry(ctx: Ctx, out: Collector) -> None:
+    """EX-11: "the pool is gone" is an error of the engine, not of the node body.  The pool is fetched (and its readiness
+    re-checked) by the dispatcher, which the retry loop calls inside its protected region: the error is retried `attempts`
+    times and finally replaced by get_default (or contained by a one-of) - the run returns a value with error None although
+    no pool body ran."""
+    from .ex import RUN_NODE
+    from .rt import _retry_loop
+    p = ctx.p
+    unit, g, head = _retry_loop(ctx)
+    run_node = p.func(RUN_NODE)
+    fetches = [c for c in ast.walk(run_node.node) if isinstance(c, ast.Call) and isinstance(c.func, ast.Attribute)
+               and c.func.attr in ('get_pool_executor', 'is_ready')]
+    env = FuncEnv.of(p, unit)
+    protected_calls = []
+    for t in ast.walk(head.node):
+        if isinstance(t, ast.Try):
+            for st in t.body:
+                for c in ast.walk(st):
+                    if isinstance(c, ast.Call) and any(x[0] == 'func' and x[1] is run_node for x in env.resolve_call(c)):
+                        protected_calls.append(c)
+    cons = f'{unit.module.name}::{unit.qualname}::a missing pool is not handled as a failure of the node body [pool fetch outside the retry]'
+    if not fetches:
+        out.ok('EX-11', cons, p.loc(unit, head.node), 'the dispatcher does not fetch the pool itself')
+    elif not protected_calls:
+        out.ok('EX-11', cons, p.loc(unit, head.node), 'the dispatcher is not called inside the protected region')
+    else:
+        out.bad('EX-11', cons, p.loc(unit, protected_calls[0]), 'run_node() fetches the pool (get_pool_executor -> is_ready raises RuntimeError when '
+                'the pool was shut down or broke after the start-of-run check) inside the try of the retry loop: the engine\'s own error is '
+                'retried and replaced by get_default / contained by a one-of - value=-999, error=None, no pool body ran')
